@@ -13,6 +13,7 @@ import (
 
 	"pgregory.net/rapid"
 	"tags.cncf.io/container-device-interface/pkg/cdi"
+	"tags.cncf.io/container-device-interface/verifharness/obs"
 	"tags.cncf.io/container-device-interface/verifharness/stats"
 )
 
@@ -341,7 +342,16 @@ func propC11(rec *stats.Rec, sc *scratch, exclude map[string]bool) func(t *rapid
 		t.Repeat(actions)
 		ok, got, want, took := converge(cache, dirs, 10*time.Second)
 		if !ok {
-			t.Fatalf("C11 violated: 10 s after the last change the auto-refresh cache still differs from a cache freshly built from the directories\nhistory: %s\ncache:\n%s\nfresh:\n%s", canonJSON(history), got, want)
+			// diagnosis: which inodes are watched, which inodes the configured paths have now, the directory-level errors
+			diagPaths := append([]string{}, dirs...)
+			if ents, err := os.ReadDir(root); err == nil {
+				for _, e := range ents {
+					if strings.HasPrefix(e.Name(), "away") {
+						diagPaths = append(diagPaths, filepath.Join(root, e.Name()))
+					}
+				}
+			}
+			t.Fatalf("C11 violated: 10 s after the last change the auto-refresh cache still differs from a cache freshly built from the directories\nhistory: %s\ncache:\n%s\nfresh:\n%s\ndirectory errors: %v\nwatches:\n%s", canonJSON(history), got, want, cache.GetSpecDirErrors(), obs.WatchDiag(diagPaths))
 		}
 		createOnly := false
 		for _, s := range history {
@@ -362,6 +372,14 @@ func propC11(rec *stats.Rec, sc *scratch, exclude map[string]bool) func(t *rapid
 		rec.Add("steps", int64(len(history)))
 		rec.Case(createOnly || len(history) >= 4, canonJSON(history), func() any { return map[string]any{"dirs": nDirs, "history": history, "final": want} }, ls...)
 	}
+}
+
+// TestC11DirChurn: the same machine restricted to directory-level churn (directories created, removed,
+// renamed away, renamed into place) plus the cheapest file actions, so that histories are dense in the
+// transitions in which a watch has to be dropped and re-added.
+func TestC11DirChurn(t *testing.T) {
+	ex := map[string]bool{"createWrite": true, "rewriteInChunks": true, "replaceByRename": true, "linkIn": true, "renameAway": true, "renameInside": true, "remove": true}
+	rapid.Check(t, propC11(stats.For("C11", "dirchurn"), newScratch(t), ex))
 }
 
 func TestC11Rapid(t *testing.T) {
